@@ -246,6 +246,18 @@ fn boundary_cases(tier: Tier) -> Vec<Case> {
             }
         }
     }
+    // ranges with far-apart or descending bounds, built and iterated directly
+    let edge: Vec<i64> = vec![i64::MIN, i64::MIN + 1, -1, 0, 1, i64::MAX - 1, i64::MAX];
+    for &a in &edge {
+        for &b in &edge {
+            if (b as i128) - (a as i128) > 4 {
+                continue;
+            }
+            let (la, lb) = (super::c06::lit(a), super::c06::lit(b));
+            v.push(Case::new(format!("n := 0\nfor e in {} .. {} {{\nn += 1\n}}\nprint(n)\n", la, lb), 3, format!("for over {} .. {}", a, b)));
+            v.push(Case::new(format!("a := {}\nb := {}\nfor [i, e] in a .. b {{\nprint(i)\n}}\nprint([(a .. b)..])\nprint((a .. b)[:])\n", la, lb), 3, format!("uses of {} .. {}", a, b)));
+        }
+    }
     // type functions stored in containers and reached through them
     for call in ["t.size()", "t.kind()", "t[\"size\"]()", "u[0]()", "u[1]()", "w := t.size\nw()", "w := u[0]\nw()", "w := \"abc\"->len\nw()", "w := [1]->type\nprint(w())"] {
         v.push(Case::new(format!("t := {{\"size\": \"abc\"->len, \"kind\": [1]->type}}\nu := [\"abc\"->len, 5->type]\nprint(\"pre\")\n{}\nprint(\"post\")\n", call), 3, format!("stored type function {}", call)));
@@ -277,7 +289,10 @@ fn boundary_cases(tier: Tier) -> Vec<Case> {
 // (4) every feature nested inside every other: expression constructors with one hole, composed
 // `depth` deep over a few leaves.  The setup declares what the constructors use.
 const NEST_SETUP: &str = "fn id(p) {\nreturn p\n}\nfn tag(p) {\nreturn $\"<${p}>\"\n}\nfn wrap(p) {\nreturn [p]\n}\no := {\"m\": fn(p) {\nreturn p\n}, \"k\": [1]}\nxs := [1, [2]]\n";
-const NEST_CTX: [&str; 30] = [
+const NEST_CTX: [&str; 33] = [
+    "$\"a${\n@}b\"",
+    "$\"a${@\n}b\"",
+    "$\"${ @ }${\n@\n}\"",
     "[@]",
     "{\"k\": @}",
     "[@..]",
